@@ -83,7 +83,8 @@ def gen_cases(tier, rng):
             yield {"kind": "extra", "fn": "latent", "g": g, "nodes": nodes, "gtype": gt, "cont": ["list", "frozenset", "set", "tuple"][j % 4],
                    "variants": [[fam, rng.randrange(10 ** 6)]]}
     # --- proper_possibly_directed_path (metamorphic, no Coq model): all ADMGs with <= 3 nodes x all pairs of disjoint non-empty
-    #     node sets (X, Y), random 4-5 node ADMGs and mark graphs (as PAG); reference = the call with one-character labels
+    #     node sets (X, Y), random 4-5 node ADMGs and mark graphs (as PAG); X, Y as sets and as frozensets, a single source also
+    #     as the bare node; reference = the call with one-character labels
     def xy_pairs(vs, cap):
         subs = [s for s in gr.subsets(vs, 2) if s]
         ps = [[x, y] for x in subs for y in subs if not set(x) & set(y)]
@@ -166,11 +167,25 @@ def _ppdp_call(case, vc):
     before = gr.snapshot(G)
     res = []
     for X, Y in case["queries"]:
-        xs, ys = {lab(v) for v in X}, {lab(v) for v in Y}
-        r = _call(lambda: sorted([inv(v) for v in path] for path in proper_possibly_directed_path(G, xs, ys)))
-        if sorted(map(inv, xs)) != sorted(X) or sorted(map(inv, ys)) != sorted(Y):
-            r = {"exc": "argument-modified"}
-        res.append(r)
+        # argument forms: X and Y as sets; as frozensets; and a single source given as the bare node (not wrapped in a set), which
+        # must be treated as ONE node whatever its label is made of (a tuple label must not be read as a container of sources).
+        # A label that itself is a set/frozenset is by the API's design read as a set of sources: that form is skipped (None).
+        forms = [(set, set), (frozenset, frozenset)] + ([("bare", set), ("bare", frozenset)] if len(X) == 1 else [])
+        rs = []
+        for fx, fy in forms:
+            ys = fy(lab(v) for v in Y)
+            if fx == "bare":
+                xs = lab(X[0])
+                if isinstance(xs, (set, frozenset)):
+                    rs.append(None)
+                    continue
+            else:
+                xs = fx(lab(v) for v in X)
+            r = _call(lambda: sorted([inv(v) for v in path] for path in proper_possibly_directed_path(G, xs, ys)))
+            if (fx != "bare" and sorted(map(inv, xs)) != sorted(X)) or sorted(map(inv, ys)) != sorted(Y):
+                r = {"exc": "argument-modified"}
+            rs.append(r)
+        res.append(rs)
     return {"res": res, "intact": gr.snapshot(G) == before}
 
 
@@ -257,7 +272,7 @@ def _diffs(case, impl, model):
         for vi, o in enumerate(impl["variants"]):
             if not o["intact"]:
                 bad.append(("graph-modified", vi))
-            if o["res"] != ref["res"]:
+            if any(a is not None and a != b for ra, rb in zip(o["res"], ref["res"]) for a, b in zip(ra, rb)) or len(o["res"]) != len(ref["res"]):
                 bad.append(("proper_possibly_directed_path:differs-from-the-result-with-one-character-labels", vi))
         return bad
     for vi, o in enumerate(impl["variants"]):
